@@ -11,6 +11,9 @@ pub fn cfg_json(e: &Enc, sink: Sink, repl: bool, bom: &str) -> J {
     J::obj().set("engine", J::s("xdec")).set("encoding", J::s(e.name)).set("sink", J::s(sink.name())).set("repl", J::Bool(repl)).set("bom", J::s(bom))
 }
 
+/// `cut` values from CAPPED on mean: no cut, but every call gets the fixed capacity cut - CAPPED.
+pub const CAPPED: usize = 1 << 20;
+
 /// One stream, both forms, optional cut. Returns number of evaluations.
 fn check_stream(e: &Enc, bytes: &[u8], cut: Option<usize>, stats: &mut Stats, vios: &mut VioSet) {
     let (reft, _) = spec::ref_decode_all(e, BomMode::Off, bytes);
@@ -22,6 +25,7 @@ fn check_stream(e: &Enc, bytes: &[u8], cut: Option<usize>, stats: &mut Stats, vi
         stats.evaluations += 1;
         let run = match cut {
             None => decode_stream_single(e, BomMode::Off, sink, repl, bytes),
+            Some(c) if c >= CAPPED => decode_chunks_cap(e, BomMode::Off, sink, repl, &[bytes], true, Some((c - CAPPED).max(sink.min_cap()))),
             Some(c) => decode_chunks_ample(e, BomMode::Off, sink, repl, &[&bytes[..c], &bytes[c..]], true),
         };
         {
@@ -60,6 +64,7 @@ fn check_stream(e: &Enc, bytes: &[u8], cut: Option<usize>, stats: &mut Stats, vi
             let mut j = cfg_json(e, sink, repl, "off");
             let calls = match cut {
                 None => vec![Call::new(bytes, bytes.len() * 4 + 64, true).to_json()],
+                Some(c) if c >= CAPPED => vec![Call::new(bytes, (c - CAPPED).max(sink.min_cap()), true).to_json()],
                 Some(c) => vec![Call::new(&bytes[..c], c * 4 + 64, false).to_json(), Call::new(&bytes[c..], (bytes.len() - c) * 4 + 64, true).to_json()],
             };
             j.put("calls", J::Arr(calls));
@@ -102,6 +107,26 @@ fn families(e: &Enc, tier: Tier, f: &mut dyn FnMut(&[u8], Option<usize>)) {
         for b in 0..=255u8 {
             f(&[a, b], None);
             f(&[a, b], Some(1));
+        }
+    }
+    // ASCII run of every length + the encoding's word symbols + ASCII suffix, with ample and
+    // with limited per-call output (accelerated ASCII paths at every offset)
+    {
+        let words = crate::alphabet::dec_syms(e, false, true, &[]);
+        let maxn = if q { 70 } else { 130 };
+        for n in 0..=maxn {
+            let run: Vec<u8> = (0..n).map(|i| b'a' + (i % 26) as u8).collect();
+            for w in words.iter().filter(|w| w[0] >= 0x80 || w.len() > 1).take(if q { 10 } else { 40 }) {
+                for suf in [0usize, 20] {
+                    let mut s = run.clone();
+                    s.extend_from_slice(w);
+                    s.extend((0..suf).map(|i| b'A' + (i % 26) as u8));
+                    f(&s, None);
+                    for cap in [n + 4, (n / 2).max(4), 64, 48, 4] {
+                        f(&s, Some(CAPPED + cap));
+                    }
+                }
+            }
         }
     }
     // (b) structured families
